@@ -53,7 +53,10 @@ type crashRun struct {
 	admissible func(kind string, d *core.Dump, dmin int) (ok bool, matched string)
 	log        func() []string
 	nested     func(imgRoot string, ev mon.Event) // C07: nested crash during the retry
-	evLabel    string
+	// postOpen is called after each successful reopen of an image (round 0/1) and may return a violation text
+	postOpen func(img string, round int, wrote bool) string
+	preOpen  func(img string)
+	evLabel  string
 }
 
 type wrange struct {
@@ -166,10 +169,13 @@ func (c *crashRun) imagesAt(ev mon.Event, buf []byte) {
 	c.nImages++
 	c.res.Add("images_process_death", 1)
 	c.checkImage(img, "process-death", ev, a, a, "")
-	if c.nested != nil {
-		c.nested(img, ev)
-	}
 	os.RemoveAll(img)
+	if c.nested != nil {
+		if img2, ok := c.snapshot(); ok {
+			c.nested(img2, ev)
+			os.RemoveAll(img2)
+		}
+	}
 
 	files := c.io.Files()
 	// 1b. process death inside this write
@@ -411,6 +417,9 @@ func (c *crashRun) checkImage(img, kind string, ev mon.Event, dmin, a int, extra
 	dir := filepath.Join(img, "db")
 	opts := c.cfg.Options(dir)
 	var matched string
+	if c.preOpen != nil {
+		c.preOpen(img)
+	}
 	for round := 0; round < 2; round++ {
 		var db *kv.DB
 		var err error
@@ -432,6 +441,14 @@ func (c *crashRun) checkImage(img, kind string, ev mon.Event, dmin, a int, extra
 			return
 		}
 		c.res.Add("image_opens", 1)
+		if c.postOpen != nil {
+			if msg := c.postOpen(img, round, false); msg != "" {
+				c.res.Violate(fmt.Sprintf("%s image at %s (%s): after reopen #%d: %s", kind, c.evLabel, extra, round+1, msg),
+					c.feats(kind, ev, "adoption-state"), c.detail(extra, d))
+				db.Close()
+				return
+			}
+		}
 		var ok bool
 		var m string
 		if c.admissible != nil {
